@@ -74,8 +74,11 @@ def rule_try_count(cx, tier):
                     rr = du.root(l, through_calls=("Try::branch",)) if l is not None else None
                     if rr is not None and rr[0] == "call" and rr[1].bb == ph.bb:
                         ev[c2.bb] = "catch-entry"
-        require(any(e == "start" for e in ev.values()),
-                f"R-TRY-COUNT: {fn.qual} counts try blocks but emits no TryStart (counter and emission were separated: re-read the rule)")
+        if not any(e == "start" for e in ev.values()):
+            # counter and emission live in different methods: the per-method walk has no subject here
+            r.undecided.append(f"{fn.qual} counts try blocks but emits no TryStart itself (counter and emission were "
+                               f"separated): not decided")
+            continue
         rec = {}
         for c in fn.calls():
             if c.bb in ev or c.bb in cnt:
@@ -122,5 +125,8 @@ def rule_try_count(cx, tier):
                   "counter_sites": {line_of(fn, b): d for b, d in sorted(cnt.items())},
                   "recursive_compile_calls": len(rec), "states": n, "mismatches": len(bad)})
     r.analysed = {"functions_counting_try_blocks": len(subjects), "recursive_compile_calls_checked": n_rec}
+    if len(r.undecided) >= len(subjects) and not n_rec:
+        r.notes.append("no method both counts try blocks and emits TryStart: nothing decided")
+        return r
     r.floor("recursive compile calls in try-counting methods", n_rec, 3)
     return r
